@@ -361,6 +361,12 @@ func (c *Ctx) checkCredentialOrigins(r *Report, m *gwModel) {
 						if (o.Kind == "param" || o.Kind == "freevar") && strings.Contains(typeStr(o.RootType()), "gateway.") && len(o.Path) >= 1 && o.Path[0] == "cfg" {
 							continue
 						}
+						if o.Kind == "const" && (fn == "UsernameFlag" || fn == "PasswordFlag") {
+							// a constant flag at construction (the false arm of `cfg.A != nil && cfg.B != nil`)
+							if _, ok := constBool(o.Val); ok {
+								continue
+							}
+						}
 						if o.Kind == "binop" {
 							// cfg.X != nil
 							b := o.Val.(*ssa.BinOp)
